@@ -50,6 +50,7 @@ def ensures(a, r):
         ("left", fstart_is(r.left + k, r.t + F, n, d)),
         ("max", fstart_is(r.left + k - r.max, r.t, n, d)),
         ("range", z3.And(r.left >= 1, r.left <= r.max)),
+        ("abs_range", z3.And(r.left + k < U63, r.left + k - r.max >= 0)),
     ]
 
 
